@@ -216,7 +216,7 @@ def flags(repo):
     if m:
         out["realBuf"] = int(m.group(1))
     elif re.search(r"std::string\s+buf\s*;", rr_):
-        out["realBuf"] = 10 ** 18        # collected in a std::string: no fixed capacity
+        out["realBuf"] = 0               # collected in a std::string: no fixed capacity (LexCfg: 0 = no overflow)
     else:
         raise ValueError("ReadReal: lexeme buffer declaration not found")
     lg = _strip(_body(en, r"Severity\s+SDAI_LOGICAL::ReadEnum\(", "SDAI_LOGICAL::ReadEnum"))
@@ -239,7 +239,7 @@ namespace StepModel.Generated
 
 /-- behaviour switches of the reader/writer above the literal level, as the source has them now -/
 def rwCfg : StepModel.P21.RWCfg :=
-  {{ stringNodeAppends := {_b(f['stringNodeAppends'])}, criSkipsComments := {_b(f['criSkipsComments'])},
+  {{ stringNodeAppends := {_b(f['stringNodeAppends'])},
     aggrSkipsComments := {_b(f['aggrSkipsComments'])}, complexMergesParts := {_b(f['complexMergesParts'])},
     complexPartStrict := {f['complexPartStrict']}, recoveryKeepsSemicolon := {_b(f['recoveryKeepsSemicolon'])},
     complexReportsError := {_b(f['complexReportsError'])},
@@ -250,7 +250,8 @@ def rwLexCfg : StepModel.P21.LexCfg :=
   {{ intReportsFail := {_b(f['intReportsFail'])}, realReportsFail := {_b(f['realReportsFail'])},
     numberReportsFail := {_b(f['numberReportsFail'])}, logicalRejectsUnset := {_b(f['logicalRejectsUnset'])},
     binaryRejectsEmpty := {_b(f['binaryRejectsEmpty'])}, dollarKeepsError := {_b(f['dollarKeepsError'])},
-    asStrUsesWriteReal := false, realBuf := {f['realBuf']}, realPrecision := 15 }}
+    asStrUsesWriteReal := false, criSkipsComments := {_b(f['criSkipsComments'])}, realBuf := {f['realBuf']},
+    realPrecision := 15 }}
 
 end StepModel.Generated
 """
